@@ -1,1 +1,1124 @@
-//! C33: not implemented yet.
+//! C33 — Advertised stratum and loop avoidance are consistent.
+//!
+//! Engine E-IN (+ end-to-end through real `NtpSource` / `Server` / `NtpManager` objects).
+//!
+//!  A. `NtpSourceSnapshot::accept_synchronization` over the full product
+//!     stratum x local stratum x reach x source id x reference id x local address list x
+//!     Bloom filter (source id and reference id varied independently);
+//!  B. `NtpSnapshot::from_used_sources` over every sequence of <= 3 used sources from a
+//!     39-symbol alphabet (NTP sources of several strata / ids / Bloom filters, PPS, SOCK,
+//!     CSPTP) x local stratum;
+//!  E. end to end: a real source created by a real `NtpManager`, polled against a real
+//!     `Server` whose advertised stratum / reference id / Bloom filter is the case under
+//!     test (optionally after a first phase advertising something else), with every
+//!     delivered / dropped answer pattern of the schedule; after *every* step the `usable`
+//!     flag handed to the source controller and the `NtpSnapshot` published by
+//!     `update_used_sources` are compared with the oracle;
+//!  D. two complete daemons A and B: B synchronises to A, then A polls B - the actual loop.
+//!
+//! Oracle (transcribed from the statement): a source must not be used if
+//!   stratum >= local stratum, or it is unreachable (no valid answer to the last 8 polls),
+//!   or it is this daemon itself (its address is a local address), or it reports that it
+//!   synchronises to this daemon: stratum > 1 and its reference id is the id of a local
+//!   address, or its (completely transferred) Bloom filter contains this daemon's server id.
+//! "Own address at stratum 1" is accepted either way (could be another daemon on this host),
+//! as is "stratum 0 with a local reference id" (never stored by a live source).
+//! Otherwise the source is expected to be usable (completeness side; makes over-rejection
+//! visible). Advertised: stratum = primary + 1 and reference id = primary's id, or the local
+//! stratum without used sources.
+use std::collections::HashMap;
+use std::net::{IpAddr, Ipv4Addr, Ipv6Addr, SocketAddr};
+use std::sync::atomic::{AtomicU64, Ordering};
+use std::sync::{Arc, Mutex, RwLock};
+
+use super::common::{self, Ctx};
+use crate::algorithm::{Measurement, ObservableSourceTimedata, SourceController};
+use crate::config::{SourceConfig, SynchronizationConfig};
+use crate::identifiers::ReferenceId;
+use crate::packet::v5::server_reference_id::verif_probe::gk as pb;
+use crate::packet::v5::server_reference_id::{BloomFilter, ServerId};
+use crate::server::{FilterAction, FilterList, IpSubnet, Server, ServerAction, ServerConfig, ServerReason, ServerResponse, ServerStatHandler};
+use crate::source::verif_probe::gk as ps;
+use crate::source::{NtpSource, NtpSourceAction, NtpSourceSnapshot, ProtocolVersion, SourceSnapshot};
+use crate::system::{NtpManager, NtpServerInfo, NtpSnapshot, SourceType, TimeSnapshot};
+use crate::time_types::{NtpDuration, NtpTimestamp, PollInterval, PollIntervalLimits};
+use crate::{ClockId, KeySetProvider, NtpClock, NtpLeapIndicator, NtpVersion};
+
+// ---------------------------------------------------------------------------------
+// addresses and identifiers (reference ids computed by the harness, not by the crate)
+// ---------------------------------------------------------------------------------
+
+const OWN4: Ipv4Addr = Ipv4Addr::new(192, 0, 2, 17);
+const SECOND4: Ipv4Addr = Ipv4Addr::new(10, 1, 2, 3);
+const OTHER4: Ipv4Addr = Ipv4Addr::new(198, 51, 100, 9);
+const UP4: Ipv4Addr = Ipv4Addr::new(203, 0, 113, 5);
+
+fn own6() -> Ipv6Addr {
+    "2001:db8::7".parse().unwrap()
+}
+fn other6() -> Ipv6Addr {
+    "fe80::1".parse().unwrap()
+}
+
+/// RFC 5905 reference id of an address: the IPv4 address itself, or the first four octets
+/// of the MD5 digest of the IPv6 address (digests computed offline with python hashlib).
+fn ref_id_of(ip: IpAddr) -> [u8; 4] {
+    match ip {
+        IpAddr::V4(a) => a.octets(),
+        IpAddr::V6(a) => {
+            if a == own6() {
+                [0xe1, 0xb2, 0xc2, 0x9d]
+            } else if a == other6() {
+                [0x89, 0xe5, 0x30, 0x1f]
+            } else if a == "2001:db8:85a3::8a2e:370:7334".parse::<Ipv6Addr>().unwrap() {
+                [0xd6, 0x1c, 0xe9, 0xc2]
+            } else {
+                panic!("harness: no reference digest for {a}")
+            }
+        }
+    }
+}
+
+fn ip_list(kind: usize) -> Vec<IpAddr> {
+    match kind {
+        0 => vec![IpAddr::V4(OWN4)],
+        1 => vec![IpAddr::V6(own6())],
+        2 => vec![IpAddr::V4(OWN4), IpAddr::V6(own6())],
+        3 => vec![IpAddr::V4(SECOND4), IpAddr::V6(own6()), IpAddr::V4(OWN4)],
+        _ => vec![],
+    }
+}
+const IPL_KINDS: usize = 5;
+
+fn local_ids(kind: usize) -> Vec<[u8; 4]> {
+    ip_list(kind).into_iter().map(ref_id_of).collect()
+}
+
+/// identifier alphabet used for source ids and reference ids
+fn id_kind(kind: usize) -> [u8; 4] {
+    match kind {
+        0 => ref_id_of(IpAddr::V4(OWN4)),
+        1 => ref_id_of(IpAddr::V6(own6())),
+        2 => ref_id_of(IpAddr::V4(OTHER4)),
+        3 => ref_id_of(IpAddr::V6(other6())),
+        4 => *b"XNON",
+        _ => ref_id_of(IpAddr::V4(SECOND4)),
+    }
+}
+const SRC_KINDS: usize = 4;
+const REF_KINDS: usize = 6;
+
+const OWN_IDX: [u16; 10] = [5, 100, 333, 777, 1024, 2047, 2048, 3000, 4000, 4095];
+const OTHER_IDX: [u16; 10] = [6, 101, 334, 778, 1025, 2046, 2049, 3001, 4001, 4094];
+const THIRD_IDX: [u16; 10] = [7, 102, 335, 779, 1026, 2045, 2050, 3002, 4002, 4093];
+const NEAR_IDX: [u16; 10] = [5, 100, 333, 777, 1024, 2047, 2048, 3000, 4000, 4092];
+
+fn filter_of(ids: &[[u16; 10]]) -> BloomFilter {
+    let mut f = BloomFilter::new();
+    for i in ids {
+        f.add_id(&pb::server_id(*i));
+    }
+    f
+}
+
+/// (filter, does it report the id OWN_IDX)
+fn bloom_kind(kind: usize) -> (Option<BloomFilter>, bool) {
+    match kind {
+        0 => (None, false),
+        1 => (Some(BloomFilter::new()), false),
+        2 => (Some(filter_of(&[OWN_IDX])), true),
+        3 => (Some(filter_of(&[OTHER_IDX])), false),
+        4 => (Some(filter_of(&[OTHER_IDX, OWN_IDX])), true),
+        5 => (Some(filter_of(&[NEAR_IDX, THIRD_IDX])), false),
+        _ => (Some(pb::filter_from_bytes([0xFF; 512])), true),
+    }
+}
+const BLOOM_KINDS: usize = 7;
+
+// ---------------------------------------------------------------------------------
+// oracle
+// ---------------------------------------------------------------------------------
+
+#[derive(Clone, Copy, PartialEq, Eq, Debug)]
+enum Verdict {
+    MustReject(&'static str),
+    MustAccept,
+    Either,
+}
+
+fn oracle(stratum: u8, local_stratum: u8, reachable: bool, source_is_own: bool, ref_is_own: bool, bloom_reports_us: bool) -> Verdict {
+    if stratum >= local_stratum {
+        return Verdict::MustReject("stratum");
+    }
+    if !reachable {
+        return Verdict::MustReject("unreachable");
+    }
+    if bloom_reports_us {
+        return Verdict::MustReject("bloom-loop");
+    }
+    if stratum > 1 && ref_is_own {
+        return Verdict::MustReject("refid-loop");
+    }
+    if source_is_own {
+        return if stratum == 1 { Verdict::Either } else { Verdict::MustReject("self") };
+    }
+    if stratum == 0 && ref_is_own {
+        return Verdict::Either;
+    }
+    Verdict::MustAccept
+}
+
+#[derive(Default)]
+struct St {
+    evals: AtomicU64,
+    accepted: AtomicU64,
+    rejected: AtomicU64,
+    must_reject_stratum: AtomicU64,
+    must_reject_unreachable: AtomicU64,
+    must_reject_bloom: AtomicU64,
+    must_reject_refid: AtomicU64,
+    must_reject_self: AtomicU64,
+    must_accept: AtomicU64,
+    either: AtomicU64,
+    steps: AtomicU64,
+    polls: AtomicU64,
+    resets: AtomicU64,
+    snapshots: AtomicU64,
+    bloom_transfers: AtomicU64,
+}
+
+impl St {
+    fn tally(&self, v: Verdict, got: bool) {
+        self.evals.fetch_add(1, Ordering::Relaxed);
+        let side = if got { &self.accepted } else { &self.rejected };
+        side.fetch_add(1, Ordering::Relaxed);
+        let bucket = match v {
+            Verdict::MustReject("stratum") => &self.must_reject_stratum,
+            Verdict::MustReject("unreachable") => &self.must_reject_unreachable,
+            Verdict::MustReject("bloom-loop") => &self.must_reject_bloom,
+            Verdict::MustReject("refid-loop") => &self.must_reject_refid,
+            Verdict::MustReject(_) => &self.must_reject_self,
+            Verdict::MustAccept => &self.must_accept,
+            Verdict::Either => &self.either,
+        };
+        bucket.fetch_add(1, Ordering::Relaxed);
+    }
+}
+
+/// Compare; report; returns true when consistent.
+fn verdict_check(ctx: &Ctx, v: Verdict, got: bool, what: &str, trace: &str) -> bool {
+    match (v, got) {
+        (Verdict::MustReject(reason), true) => {
+            ctx.violation(&format!("C33:accepted-{reason}"), format!("{what}: source is usable although the statement forbids it ({reason})"), trace);
+            false
+        }
+        (Verdict::MustAccept, false) => {
+            ctx.violation("C33:rejected-usable-source", format!("{what}: source rejected although no rejection condition of the statement holds"), trace);
+            false
+        }
+        _ => true,
+    }
+}
+
+// ---------------------------------------------------------------------------------
+// A. accept_synchronization directly
+// ---------------------------------------------------------------------------------
+
+const A_STRATA: [u8; 20] = [0, 1, 2, 3, 4, 5, 6, 7, 8, 9, 10, 11, 12, 13, 14, 15, 16, 17, 254, 255];
+const A_LOCAL: [u8; 8] = [0, 1, 2, 3, 15, 16, 17, 255];
+const A_REACH_QUICK: [u8; 9] = [0, 1, 2, 0x40, 0x80, 0x81, 0x7F, 0xFE, 0xFF];
+
+#[derive(Clone, Copy, Debug)]
+struct ACase {
+    stratum: u8,
+    local: u8,
+    reach: u8,
+    src: usize,
+    refk: usize,
+    ipl: usize,
+    bloom: usize,
+}
+
+impl ACase {
+    fn trace(&self) -> String {
+        format!("A;{};{};{};{};{};{};{}", self.stratum, self.local, self.reach, self.src, self.refk, self.ipl, self.bloom)
+    }
+}
+
+fn run_a(ctx: &Ctx, st: &St, c: ACase, blooms: &[(Option<BloomFilter>, bool)]) -> String {
+    let ips = ip_list(c.ipl);
+    let own = local_ids(c.ipl);
+    let src_id = id_kind(c.src);
+    let ref_id = id_kind(c.refk);
+    let (bloom, reports_us) = blooms[c.bloom];
+    let snap = NtpSourceSnapshot {
+        source_addr: SocketAddr::new(IpAddr::V4(OTHER4), 123),
+        source_id: ReferenceId::from_bytes(src_id),
+        poll_interval: PollIntervalLimits::default().min,
+        reach: ps::reach(c.reach),
+        stratum: c.stratum,
+        reference_id: ReferenceId::from_bytes(ref_id),
+        protocol_version: if bloom.is_some() { ProtocolVersion::V5 } else { ProtocolVersion::V4 },
+        bloom_filter: bloom,
+    };
+    let me = pb::server_id(OWN_IDX);
+    let v = oracle(c.stratum, c.local, c.reach != 0, own.contains(&src_id), own.contains(&ref_id), reports_us);
+    match common::catch(|| snap.accept_synchronization(c.local, &ips, me)) {
+        Ok(r) => {
+            let got = r.is_ok();
+            st.tally(v, got);
+            verdict_check(
+                ctx,
+                v,
+                got,
+                &format!(
+                    "accept_synchronization(stratum {}, local stratum {}, reach {:#04x}, source id {:02x?}, reference id {:02x?}, local ids {:02x?}, bloom kind {}) = {:?}",
+                    c.stratum, c.local, c.reach, src_id, ref_id, own, c.bloom, r
+                ),
+                &c.trace(),
+            );
+            format!("verdict={v:?} got={r:?}")
+        }
+        Err(e) => {
+            ctx.violation("C33:accept-panic", format!("accept_synchronization panicked: {e}"), c.trace());
+            format!("panic {e}")
+        }
+    }
+}
+
+fn part_a(ctx: &Ctx, st: &St) {
+    let reach: Vec<u8> = if ctx.quick() { A_REACH_QUICK.to_vec() } else { (0..=255u8).collect() };
+    let blooms: Vec<_> = (0..BLOOM_KINDS).map(bloom_kind).collect();
+    let radix = [A_STRATA.len(), A_LOCAL.len(), reach.len(), SRC_KINDS, REF_KINDS, IPL_KINDS, BLOOM_KINDS];
+    let total: u64 = radix.iter().map(|r| *r as u64).product();
+    ctx.set("a_cases", total);
+    common::par_for(total, 4096, |i| {
+        let mut x = i;
+        let mut d = [0usize; 7];
+        for k in (0..7).rev() {
+            d[k] = (x % radix[k] as u64) as usize;
+            x /= radix[k] as u64;
+        }
+        let c = ACase { stratum: A_STRATA[d[0]], local: A_LOCAL[d[1]], reach: reach[d[2]], src: d[3], refk: d[4], ipl: d[5], bloom: d[6] };
+        run_a(ctx, st, c, &blooms);
+    });
+    // every case is distinct input; the non-trivial ones are those where exactly one
+    // rejection condition decides (counted per reason in the must_reject_* statistics)
+}
+
+// ---------------------------------------------------------------------------------
+// B. NtpSnapshot::from_used_sources
+// ---------------------------------------------------------------------------------
+
+#[derive(Clone, Copy, Debug)]
+enum Sym {
+    Ntp { stratum: u8, id: usize, bloom: usize },
+    Pps,
+    Sock,
+    Csptp,
+}
+
+fn alphabet() -> Vec<Sym> {
+    let mut v = Vec::new();
+    for stratum in [0u8, 1, 2, 15, 16, 255] {
+        for id in [2usize, 3] {
+            for bloom in [0usize, 3, 5] {
+                v.push(Sym::Ntp { stratum, id, bloom });
+            }
+        }
+    }
+    v.push(Sym::Pps);
+    v.push(Sym::Sock);
+    v.push(Sym::Csptp);
+    v
+}
+
+fn sym_snapshot(s: Sym) -> (SourceSnapshot, u8, Option<[u8; 4]>, Vec<[u16; 10]>) {
+    match s {
+        Sym::Ntp { stratum, id, bloom } => {
+            let (f, _) = bloom_kind(bloom);
+            let ids: Vec<[u16; 10]> = match bloom {
+                3 => vec![OTHER_IDX],
+                5 => vec![NEAR_IDX, THIRD_IDX],
+                _ => vec![],
+            };
+            (
+                SourceSnapshot::Ntp(NtpSourceSnapshot {
+                    source_addr: SocketAddr::new(IpAddr::V4(OTHER4), 123),
+                    source_id: ReferenceId::from_bytes(id_kind(id)),
+                    poll_interval: PollIntervalLimits::default().min,
+                    reach: ps::reach(1),
+                    stratum,
+                    reference_id: ReferenceId::NONE,
+                    protocol_version: if f.is_some() { ProtocolVersion::V5 } else { ProtocolVersion::V4 },
+                    bloom_filter: f,
+                }),
+                stratum,
+                Some(id_kind(id)),
+                ids,
+            )
+        }
+        // reference clocks are stratum 0; their identifier is the clock's 4-character name
+        Sym::Pps => (SourceSnapshot::External { stratum: 0, source_id: ReferenceId::PPS }, 0, Some(*b"PPS\0"), vec![]),
+        Sym::Sock => (SourceSnapshot::External { stratum: 0, source_id: ReferenceId::SOCK }, 0, Some(*b"SOCK"), vec![]),
+        Sym::Csptp => (SourceSnapshot::External { stratum: 0, source_id: ReferenceId::CSPTP }, 0, Some(*b"CPTP"), vec![]),
+    }
+}
+
+fn check_advert(ctx: &Ctx, what: &str, trace: &str, snap: &NtpSnapshot, local: u8, primary: Option<(u8, [u8; 4])>, me: &ServerId, must_contain: &[[u16; 10]]) {
+    match primary {
+        None => {
+            if snap.stratum != local {
+                ctx.violation("C33:advertised-stratum", format!("{what}: no used source, advertised stratum {} != local stratum {local}", snap.stratum), trace);
+            }
+        }
+        Some((ps_, pid)) => {
+            let want = ps_ as u16 + 1;
+            if ps_ < 255 && snap.stratum as u16 != want {
+                ctx.violation("C33:advertised-stratum", format!("{what}: advertised stratum {} but the primary source has stratum {ps_}", snap.stratum), trace);
+            }
+            if ps_ == 255 && snap.stratum != 255 {
+                ctx.violation("C33:advertised-stratum", format!("{what}: advertised stratum {} for a primary at stratum 255", snap.stratum), trace);
+            }
+            if snap.reference_id.to_bytes() != pid {
+                ctx.violation(
+                    "C33:advertised-refid",
+                    format!("{what}: advertised reference id {:02x?} is not the primary source's identifier {:02x?}", snap.reference_id.to_bytes(), pid),
+                    trace,
+                );
+            }
+        }
+    }
+    // derived (dual of the Bloom rejection rule): what we advertise must let others detect loops through us
+    if !snap.bloom_filter.contains_id(me) {
+        ctx.violation("C33:advertised-bloom-missing-id", format!("{what}: advertised Bloom filter does not contain the own server id"), trace);
+    }
+    for i in must_contain {
+        if !snap.bloom_filter.contains_id(&pb::server_id(*i)) {
+            ctx.violation("C33:advertised-bloom-missing-id", format!("{what}: advertised Bloom filter lost an id reported by a used source"), trace);
+        }
+    }
+}
+
+fn run_b(ctx: &Ctx, st: &St, local: u8, word: &[usize], alpha: &[Sym]) -> String {
+    let me = pb::server_id(OWN_IDX);
+    let trace = format!("B;{local};{}", word.iter().map(|w| w.to_string()).collect::<Vec<_>>().join(","));
+    let mut snaps = Vec::new();
+    let mut primary = None;
+    let mut must = Vec::new();
+    for (k, &w) in word.iter().enumerate() {
+        let (s, stratum, id, ids) = sym_snapshot(alpha[w]);
+        if k == 0 {
+            primary = Some((stratum, id.unwrap()));
+        }
+        must.extend(ids);
+        snaps.push(s);
+    }
+    st.evals.fetch_add(1, Ordering::Relaxed);
+    st.snapshots.fetch_add(1, Ordering::Relaxed);
+    match common::catch(|| NtpSnapshot::from_used_sources(local, me, snaps.into_iter())) {
+        Ok(snap) => {
+            check_advert(ctx, &format!("from_used_sources(local {local}, {:?})", word.iter().map(|w| alpha[*w]).collect::<Vec<_>>()), &trace, &snap, local, primary, &me, &must);
+            format!("stratum={} refid={:02x?} ones={}", snap.stratum, snap.reference_id.to_bytes(), snap.bloom_filter.count_ones())
+        }
+        Err(e) => {
+            ctx.violation("C33:advert-panic", format!("from_used_sources panicked: {e}"), trace);
+            format!("panic {e}")
+        }
+    }
+}
+
+fn part_b(ctx: &Ctx, st: &St) {
+    let alpha = alphabet();
+    let k = alpha.len();
+    ctx.set("b_alphabet", k as u64);
+    let mut n = 0u64;
+    for local in [1u8, 2, 16] {
+        for len in 0..=3usize {
+            let total = common::pow(k, len);
+            common::par_for(total, 512, |i| {
+                let w = common::word_of(i, k, len);
+                run_b(ctx, st, local, &w, &alpha);
+                if len > 0 {
+                    ctx.distinct(common::hash_of(&("B", local, &w)));
+                }
+            });
+            n += total;
+        }
+    }
+    ctx.set("b_cases", n);
+}
+
+// ---------------------------------------------------------------------------------
+// end-to-end machinery
+// ---------------------------------------------------------------------------------
+
+#[derive(Default)]
+struct RecCtl {
+    usable: Vec<bool>,
+    measurements: usize,
+}
+
+impl SourceController for RecCtl {
+    fn handle_measurement(&mut self, _m: Measurement) {
+        self.measurements += 1;
+    }
+    fn set_usable(&mut self, usable: bool) {
+        self.usable.push(usable);
+    }
+    fn desired_poll_interval(&self) -> PollInterval {
+        PollInterval::default()
+    }
+    fn observe(&self) -> ObservableSourceTimedata {
+        ObservableSourceTimedata::default()
+    }
+}
+
+#[derive(Clone, Debug, Default)]
+struct FixedClock;
+
+impl NtpClock for FixedClock {
+    type Error = std::io::Error;
+    fn now(&self) -> Result<NtpTimestamp, Self::Error> {
+        Ok(NtpTimestamp::from_fixed_int(0xE000_0000_0000_0300))
+    }
+    fn set_frequency(&self, _freq: f64) -> Result<NtpTimestamp, Self::Error> {
+        unreachable!()
+    }
+    fn get_frequency(&self) -> Result<f64, Self::Error> {
+        Ok(0.0)
+    }
+    fn step_clock(&self, _offset: NtpDuration) -> Result<NtpTimestamp, Self::Error> {
+        unreachable!()
+    }
+    fn disable_ntp_algorithm(&self) -> Result<(), Self::Error> {
+        Ok(())
+    }
+    fn error_estimate_update(&self, _e: NtpDuration, _m: NtpDuration) -> Result<(), Self::Error> {
+        Ok(())
+    }
+    fn status_update(&self, _l: NtpLeapIndicator) -> Result<(), Self::Error> {
+        Ok(())
+    }
+}
+
+struct NoStats;
+impl ServerStatHandler for NoStats {
+    fn register(&mut self, _v: u8, _n: bool, _r: ServerReason, _s: ServerResponse) {}
+}
+
+fn open_server_config() -> ServerConfig {
+    ServerConfig {
+        denylist: FilterList { filter: vec![], action: FilterAction::Deny },
+        allowlist: FilterList {
+            filter: vec![IpSubnet { addr: IpAddr::V4(Ipv4Addr::UNSPECIFIED), mask: 0 }, IpSubnet { addr: IpAddr::V6(Ipv6Addr::UNSPECIFIED), mask: 0 }],
+            action: FilterAction::Ignore,
+        },
+        rate_limiting_cache_size: 0,
+        rate_limiting_cutoff: std::time::Duration::from_secs(0),
+        require_nts: None,
+        accepted_versions: vec![NtpVersion::V3, NtpVersion::V4, NtpVersion::V5],
+    }
+}
+
+/// A server whose advertised data the harness sets directly.
+struct ScriptedServer {
+    info: Arc<RwLock<NtpServerInfo>>,
+    server: Server<FixedClock>,
+}
+
+impl ScriptedServer {
+    fn new() -> Self {
+        let info = Arc::new(RwLock::new(NtpServerInfo {
+            time_snapshot: TimeSnapshot { leap_indicator: NtpLeapIndicator::NoWarning, ..TimeSnapshot::default() },
+            ntp_snapshot: NtpSnapshot::default(),
+        }));
+        let server = Server::new_internal(open_server_config(), FixedClock, info.clone(), KeySetProvider::new(1).get());
+        ScriptedServer { info, server }
+    }
+    fn advertise(&self, stratum: u8, refid: [u8; 4], bloom: BloomFilter) {
+        let mut i = self.info.write().unwrap();
+        i.ntp_snapshot = NtpSnapshot { stratum, reference_id: ReferenceId::from_bytes(refid), bloom_filter: bloom };
+    }
+}
+
+/// What the harness believes the source knows (from the statement's point of view).
+#[derive(Clone, Debug)]
+struct Model {
+    stratum: u8,
+    refid: [u8; 4],
+    reach: u8,
+    chunks: u32,
+    bloom_full: bool,
+    valid_answers: u32,
+}
+
+impl Model {
+    fn new() -> Self {
+        Model { stratum: 16, refid: *b"XNON", reach: 0, chunks: 0, bloom_full: false, valid_answers: 0 }
+    }
+}
+
+struct Link {
+    src: NtpSource<RecCtl>,
+    id: ClockId,
+    /// address under which the polled server sees this client
+    client_ip: IpAddr,
+    server_ip: IpAddr,
+    model: Model,
+}
+
+enum Step {
+    Polled { version: u8, answered: bool },
+    Reset,
+    Demobilize,
+    Silent,
+}
+
+/// One poll: timer fires, the request goes to `server` (unless `deliver` is false, then the
+/// request is lost), the answer comes back. The model is advanced with what the server
+/// advertised at that moment.
+fn exchange(st: &St, link: &mut Link, server: &mut Server<FixedClock>, advertised: (u8, [u8; 4]), deliver: bool) -> Step {
+    st.polls.fetch_add(1, Ordering::Relaxed);
+    let mut req = None;
+    for a in link.src.handle_timer() {
+        match a {
+            NtpSourceAction::Send(b) => req = Some(b),
+            NtpSourceAction::Reset => return Step::Reset,
+            NtpSourceAction::Demobilize => return Step::Demobilize,
+            NtpSourceAction::SetTimer(_) => {}
+        }
+    }
+    let Some(req) = req else { return Step::Silent };
+    link.model.reach <<= 1;
+    let version = (req[0] >> 3) & 7;
+    if !deliver {
+        return Step::Polled { version, answered: false };
+    }
+    let mut buf = [0u8; 1024];
+    let resp = match server.handle(link.client_ip, NtpTimestamp::from_fixed_int(0xE000_0000_0000_0200), &req, &mut buf[..req.len().max(48)], &mut NoStats) {
+        ServerAction::Respond { message } => message.to_vec(),
+        ServerAction::Ignore => return Step::Polled { version, answered: false },
+    };
+    for _ in link.src.handle_incoming(&resp, NtpTimestamp::from_fixed_int(0xE000_0000_0000_0100), NtpTimestamp::from_fixed_int(0xE000_0000_0000_0400)) {}
+    // a valid time answer carries stratum 1..=16 (0 is a kiss code, > 16 is invalid)
+    let (s, refid) = advertised;
+    if (1..=16).contains(&s) {
+        link.model.reach |= 1;
+        link.model.stratum = s;
+        link.model.valid_answers += 1;
+        if version == 5 {
+            link.model.refid = *b"XNON"; // NTPv5 has no reference id field
+            link.model.chunks += 1;
+            if link.model.chunks >= 32 {
+                link.model.bloom_full = true;
+            }
+        } else {
+            link.model.refid = refid;
+        }
+    }
+    Step::Polled { version, answered: true }
+}
+
+fn last_usable(link: &Link) -> Option<bool> {
+    ps::controller(&link.src).usable.last().copied()
+}
+
+// ---------------------------------------------------------------------------------
+// E. one daemon against a scripted server
+// ---------------------------------------------------------------------------------
+
+#[derive(Clone, Debug)]
+struct ECase {
+    ver: u8,       // 4, 5, or 45 (v4 upgrading to v5)
+    local: u8,     // local stratum
+    addr: usize,   // which address the source polls: 0 own v4, 1 own v6, 2 other v4
+    ipl: usize,    // local address list kind
+    first: usize,  // first phase: 0 none, 1 good (stratum 2, foreign reference id), 2 loop (stratum 3, local reference id)
+    stratum: u8,   // advertised in the phase under test
+    refk: usize,   // reference id kind advertised (v4 answers)
+    bloom: usize,  // 0 empty, 1 {us}, 2 {other}, 3 {us, other}
+    pattern: String,
+}
+
+impl ECase {
+    fn trace(&self) -> String {
+        format!("E;{};{};{};{};{};{};{};{};{}", self.ver, self.local, self.addr, self.ipl, self.first, self.stratum, self.refk, self.bloom, self.pattern)
+    }
+    fn parse(p: &[&str]) -> Option<ECase> {
+        Some(ECase {
+            ver: p.get(1)?.parse().ok()?,
+            local: p.get(2)?.parse().ok()?,
+            addr: p.get(3)?.parse().ok()?,
+            ipl: p.get(4)?.parse().ok()?,
+            first: p.get(5)?.parse().ok()?,
+            stratum: p.get(6)?.parse().ok()?,
+            refk: p.get(7)?.parse().ok()?,
+            bloom: p.get(8)?.parse().ok()?,
+            pattern: p.get(9)?.to_string(),
+        })
+    }
+}
+
+fn poll_addr(kind: usize) -> IpAddr {
+    match kind {
+        0 => IpAddr::V4(OWN4),
+        1 => IpAddr::V6(own6()),
+        _ => IpAddr::V4(OTHER4),
+    }
+}
+
+fn new_manager(local: u8, ips: &[IpAddr]) -> (NtpManager, BloomFilter) {
+    // the manager draws a random server id; make sure it is not (by a 2^-100 accident)
+    // covered by the harness's foreign filter
+    loop {
+        let mgr = NtpManager::new(SynchronizationConfig { local_stratum: local, ..SynchronizationConfig::default() }, ips.to_vec().into());
+        let mine = mgr.update_used_sources(std::iter::empty()).bloom_filter;
+        let foreign = filter_of(&[OTHER_IDX]);
+        let mut both = foreign;
+        both.add(&mine);
+        if both != foreign {
+            return (mgr, mine);
+        }
+    }
+}
+
+fn run_e(ctx: &Ctx, st: &St, c: &ECase) -> String {
+    let trace = c.trace();
+    let mut obs = String::new();
+    let ips = ip_list(c.ipl);
+    let own = local_ids(c.ipl);
+    let (mgr, mine) = new_manager(c.local, &ips);
+    let addr = poll_addr(c.addr);
+    let source_is_own = own.contains(&ref_id_of(addr));
+    let version = match c.ver {
+        4 => ProtocolVersion::V4,
+        5 => ProtocolVersion::V5,
+        _ => ProtocolVersion::v4_upgrading_to_v5_with_default_tries(),
+    };
+    let id = ClockId::new();
+    let (src, _) = mgr.new_source(SocketAddr::new(addr, 123), SourceConfig::default(), version, RecCtl::default(), None, id);
+    let mut link = Link { src, id, client_ip: ips.first().copied().unwrap_or(IpAddr::V4(OWN4)), server_ip: addr, model: Model::new() };
+    let mut srv = ScriptedServer::new();
+    let bloom = match c.bloom {
+        0 => BloomFilter::new(),
+        1 => mine,
+        2 => filter_of(&[OTHER_IDX]),
+        _ => {
+            let mut f = filter_of(&[OTHER_IDX]);
+            f.add(&mine);
+            f
+        }
+    };
+    let bloom_reports_us = c.bloom == 1 || c.bloom == 3;
+    // schedule: optional first phase (two answered polls), then the pattern under the case's advertisement
+    let mut phases: Vec<((u8, [u8; 4]), String)> = Vec::new();
+    match c.first {
+        1 => phases.push(((2, id_kind(2)), "aa".to_string())),
+        2 => phases.push(((3, own.first().copied().unwrap_or(id_kind(0))), "aa".to_string())),
+        _ => {}
+    }
+    let warm = if c.ver != 4 { "a".repeat(33) } else { String::new() };
+    phases.push(((c.stratum, id_kind(c.refk)), format!("{warm}{}", c.pattern)));
+    let mut ended = "end";
+    let mut npolls = 0usize;
+    'outer: for (adv, pat) in phases {
+        srv.advertise(adv.0, adv.1, bloom);
+        for ch in pat.chars() {
+            st.steps.fetch_add(1, Ordering::Relaxed);
+            npolls += 1;
+            let step = exchange(st, &mut link, &mut srv.server, adv, ch == 'a');
+            match step {
+                Step::Reset => {
+                    st.resets.fetch_add(1, Ordering::Relaxed);
+                    ended = "reset";
+                    break 'outer;
+                }
+                Step::Demobilize => {
+                    ended = "demobilize";
+                    break 'outer;
+                }
+                _ => {}
+            }
+            let m = link.model.clone();
+            let ref_is_own = own.contains(&m.refid);
+            let full_reports = bloom_reports_us && m.bloom_full;
+            let mut v = oracle(m.stratum, c.local, m.reach != 0, source_is_own, ref_is_own, full_reports);
+            if bloom_reports_us && !m.bloom_full && m.chunks > 0 && v == Verdict::MustAccept {
+                v = Verdict::Either; // partially transferred filter
+            }
+            let Some(got) = last_usable(&link) else { continue };
+            st.tally(v, got);
+            obs.push(if got { 'U' } else { 'u' });
+            verdict_check(
+                ctx,
+                v,
+                got,
+                &format!(
+                    "source {addr} (v{}) after {} polls, {} valid answers: last advertised stratum {} refid {:02x?}, reach {:#04x}, local stratum {}, local ids {:02x?}, bloom transferred {} reporting us {}",
+                    c.ver, npolls, m.valid_answers, m.stratum, m.refid, m.reach, c.local, own, m.bloom_full, bloom_reports_us
+                ),
+                &trace,
+            );
+            // Bloom transfer itself (C34 is checked separately; here only its effect)
+            let view = ps::view(&link.src);
+            if m.bloom_full {
+                st.bloom_transfers.fetch_add(1, Ordering::Relaxed);
+                if view.bloom_full.as_ref() != Some(bloom.as_bytes()) {
+                    ctx.violation("C33:bloom-not-transferred", format!("after {} answered NTPv5 polls the source does not hold the server's Bloom filter", m.chunks), &trace);
+                }
+            }
+            // the controller may only use usable sources; when it does, check the advertisement
+            if got {
+                st.snapshots.fetch_add(1, Ordering::Relaxed);
+                let snap = mgr.update_used_sources(std::iter::once((id, SourceType::Ntp)));
+                let me = ServerId::default();
+                let _ = me;
+                let want_id = ref_id_of(addr);
+                if snap.stratum as u16 != m.stratum as u16 + 1 {
+                    ctx.violation("C33:advertised-stratum", format!("daemon advertises stratum {} while its only (primary) source reported stratum {}", snap.stratum, m.stratum), &trace);
+                }
+                if snap.reference_id.to_bytes() != want_id {
+                    ctx.violation("C33:advertised-refid", format!("daemon advertises reference id {:02x?}, primary source {addr} has id {:02x?}", snap.reference_id.to_bytes(), want_id), &trace);
+                }
+                let mut u = snap.bloom_filter;
+                u.add(&mine);
+                if u != snap.bloom_filter {
+                    ctx.violation("C33:advertised-bloom-missing-id", "advertised Bloom filter does not contain the own server id", &trace);
+                }
+                if m.bloom_full {
+                    let mut u = snap.bloom_filter;
+                    u.add(&bloom);
+                    if u != snap.bloom_filter {
+                        ctx.violation("C33:advertised-bloom-missing-id", "advertised Bloom filter does not include the used source's filter", &trace);
+                    }
+                }
+                obs.push_str(&format!("[{}:{:02x?}]", snap.stratum, snap.reference_id.to_bytes()));
+                // and with no used source the local stratum is advertised again
+                let none = mgr.update_used_sources(std::iter::empty());
+                if none.stratum != c.local {
+                    ctx.violation("C33:advertised-stratum", format!("no used source: advertised stratum {} != local stratum {}", none.stratum, c.local), &trace);
+                }
+            }
+        }
+    }
+    format!("{obs} {ended}")
+}
+
+fn e_patterns(ctx: &Ctx) -> Vec<String> {
+    let mut v = vec!["aasssssssss".to_string(), "ssss".to_string(), "asasaaasssssssss".to_string()];
+    if !ctx.quick() {
+        for bits in 0..(1u32 << 10) {
+            v.push((0..10).map(|i| if bits >> i & 1 == 1 { 'a' } else { 's' }).collect());
+        }
+    }
+    v
+}
+
+fn part_e(ctx: &Ctx, st: &St) {
+    let pats = e_patterns(ctx);
+    let mut cases: Vec<ECase> = Vec::new();
+    // NTPv4: reference ids matter
+    for local in [1u8, 2, 3, 16] {
+        for addr in 0..3 {
+            for ipl in 0..3 {
+                for first in 0..3 {
+                    for stratum in 0..=17u8 {
+                        for refk in 0..REF_KINDS {
+                            // all 2^10 answer patterns only without a first phase
+                            for p in pats.iter().take(if first == 0 { pats.len() } else { 3 }) {
+                                cases.push(ECase { ver: 4, local, addr, ipl, first, stratum, refk, bloom: 0, pattern: p.clone() });
+                            }
+                        }
+                    }
+                }
+            }
+        }
+    }
+    let v4 = cases.len();
+    // NTPv5: Bloom filters matter (32 chunks of 16 bytes must arrive first)
+    let pats5: Vec<String> = if ctx.quick() { pats.clone() } else { pats.iter().take(3).cloned().chain(pats.iter().skip(3).step_by(37).cloned()).collect() };
+    for local in [2u8, 16] {
+        for addr in 0..3 {
+            for ipl in [0usize, 2] {
+                for first in 0..2 {
+                    for stratum in 0..=17u8 {
+                        for bloom in 0..4 {
+                            for p in &pats5 {
+                                cases.push(ECase { ver: 5, local, addr, ipl, first, stratum, refk: 2, bloom, pattern: p.clone() });
+                            }
+                        }
+                    }
+                }
+            }
+        }
+    }
+    // upgrade path: first answers are NTPv4 (reference id visible), later ones NTPv5
+    for stratum in [1u8, 2, 3, 16] {
+        for refk in [0usize, 2] {
+            for bloom in 0..4 {
+                for p in pats.iter().take(3) {
+                    cases.push(ECase { ver: 45, local: 16, addr: 2, ipl: 0, first: 0, stratum, refk, bloom, pattern: p.clone() });
+                }
+            }
+        }
+    }
+    ctx.set("e_cases_v4", v4 as u64);
+    ctx.set("e_cases_v5_and_upgrade", (cases.len() - v4) as u64);
+    let n = cases.len() as u64;
+    common::par_for_with(
+        n,
+        16,
+        || tokio::runtime::Builder::new_current_thread().enable_time().start_paused(true).build().expect("runtime"),
+        |rt, i| {
+            let c = &cases[i as usize];
+            let o = rt.block_on(async { run_e(ctx, st, c) });
+            ctx.distinct(common::hash_of(&("E", c.trace())));
+            if i % 40_001 == 11 {
+                ctx.sample(format!("{} -> {}", c.trace(), o));
+            }
+        },
+    );
+}
+
+// ---------------------------------------------------------------------------------
+// D. two daemons: B synchronises to A, A polls B
+// ---------------------------------------------------------------------------------
+
+#[derive(Clone, Debug)]
+struct DCase {
+    ver: u8,      // 4 or 5
+    s_up: u8,     // stratum of A's upstream (0 = A has a PPS reference clock)
+    fam: usize,   // A's address family as seen by B: 0 v4, 1 v6
+    ipl: usize,   // A's local address list: 0 = [addrA], 1 = [SECOND4, addrA]
+}
+
+impl DCase {
+    fn trace(&self) -> String {
+        format!("D;{};{};{};{}", self.ver, self.s_up, self.fam, self.ipl)
+    }
+}
+
+fn run_d(ctx: &Ctx, st: &St, c: &DCase) -> String {
+    let trace = c.trace();
+    let mut obs = String::new();
+    let addr_a: IpAddr = if c.fam == 0 { IpAddr::V4(OWN4) } else { IpAddr::V6(own6()) };
+    let addr_b = IpAddr::V4(OTHER4);
+    let ips_a: Vec<IpAddr> = if c.ipl == 0 { vec![addr_a] } else { vec![IpAddr::V4(SECOND4), addr_a] };
+    let own_a: Vec<[u8; 4]> = ips_a.iter().map(|i| ref_id_of(*i)).collect();
+    let (mgr_a, mine_a) = new_manager(16, &ips_a);
+    let (mgr_b, mine_b) = new_manager(16, &[addr_b]);
+    let mut server_a = mgr_a.new_server(open_server_config(), FixedClock, KeySetProvider::new(1).get());
+    let mut server_b = mgr_b.new_server(open_server_config(), FixedClock, KeySetProvider::new(1).get());
+    let pv = if c.ver == 5 { ProtocolVersion::V5 } else { ProtocolVersion::V4 };
+    let n = if c.ver == 5 { 33 } else { 2 };
+    // 1. A gets time from upstream
+    let up_id = ClockId::new();
+    let a_used: Vec<(ClockId, SourceType)>;
+    let a_stratum: u8;
+    if c.s_up == 0 {
+        a_used = vec![(up_id, SourceType::Pps)];
+        a_stratum = 1;
+    } else {
+        let mut up = ScriptedServer::new();
+        up.advertise(c.s_up, *b"GPS\0", filter_of(&[THIRD_IDX]));
+        let (src, _) = mgr_a.new_source(SocketAddr::new(IpAddr::V4(UP4), 123), SourceConfig::default(), pv, RecCtl::default(), None, up_id);
+        let mut l = Link { src, id: up_id, client_ip: addr_a, server_ip: IpAddr::V4(UP4), model: Model::new() };
+        for _ in 0..n {
+            exchange(st, &mut l, &mut up.server, (c.s_up, *b"GPS\0"), true);
+        }
+        let got = last_usable(&l).unwrap_or(false);
+        let v = oracle(c.s_up, 16, true, false, false, false);
+        st.tally(v, got);
+        verdict_check(ctx, v, got, "A's upstream source", &trace);
+        a_used = vec![(up_id, SourceType::Ntp)];
+        a_stratum = c.s_up + 1;
+    }
+    let snap_a = mgr_a.update_used_sources(a_used.iter().copied());
+    obs.push_str(&format!("A={}:{:02x?} ", snap_a.stratum, snap_a.reference_id.to_bytes()));
+    if snap_a.stratum != a_stratum {
+        ctx.violation("C33:advertised-stratum", format!("daemon A advertises stratum {} with a primary source at stratum {}", snap_a.stratum, a_stratum - 1), &trace);
+    }
+    // 2. B polls A and uses it
+    let ba_id = ClockId::new();
+    let (src, _) = mgr_b.new_source(SocketAddr::new(addr_a, 123), SourceConfig::default(), pv, RecCtl::default(), None, ba_id);
+    let mut b_to_a = Link { src, id: ba_id, client_ip: addr_b, server_ip: addr_a, model: Model::new() };
+    for _ in 0..n {
+        exchange(st, &mut b_to_a, &mut server_a, (snap_a.stratum, snap_a.reference_id.to_bytes()), true);
+    }
+    let got = last_usable(&b_to_a).unwrap_or(false);
+    let v = oracle(snap_a.stratum, 16, true, false, false, false);
+    st.tally(v, got);
+    verdict_check(ctx, v, got, "B's source A (A does not synchronise to B yet)", &trace);
+    let snap_b = mgr_b.update_used_sources(std::iter::once((ba_id, SourceType::Ntp)));
+    obs.push_str(&format!("B={}:{:02x?} ", snap_b.stratum, snap_b.reference_id.to_bytes()));
+    if snap_b.stratum as u16 != snap_a.stratum as u16 + 1 {
+        ctx.violation("C33:advertised-stratum", format!("daemon B advertises stratum {} while its primary source A advertises {}", snap_b.stratum, snap_a.stratum), &trace);
+    }
+    if snap_b.reference_id.to_bytes() != ref_id_of(addr_a) {
+        ctx.violation("C33:advertised-refid", format!("daemon B advertises reference id {:02x?}, its primary source A is {addr_a} = {:02x?}", snap_b.reference_id.to_bytes(), ref_id_of(addr_a)), &trace);
+    }
+    st.snapshots.fetch_add(2, Ordering::Relaxed);
+    // 3. A polls B, which synchronises to A: must never become usable once B has reported it
+    let ab_id = ClockId::new();
+    let (src, _) = mgr_a.new_source(SocketAddr::new(addr_b, 123), SourceConfig::default(), pv, RecCtl::default(), None, ab_id);
+    let mut a_to_b = Link { src, id: ab_id, client_ip: addr_a, server_ip: addr_b, model: Model::new() };
+    for k in 0..n + 2 {
+        exchange(st, &mut a_to_b, &mut server_b, (snap_b.stratum, snap_b.reference_id.to_bytes()), true);
+        let m = a_to_b.model.clone();
+        let Some(got) = last_usable(&a_to_b) else { continue };
+        // B reports that it synchronises to A: by reference id (v4), by Bloom filter (v5, once complete)
+        let ref_is_own = own_a.contains(&m.refid);
+        let mut u = snap_b.bloom_filter;
+        u.add(&mine_a);
+        let b_filter_has_a = u == snap_b.bloom_filter;
+        let mut v = oracle(m.stratum, 16, m.reach != 0, false, ref_is_own, c.ver == 5 && m.bloom_full && b_filter_has_a);
+        if c.ver == 5 && !m.bloom_full && v == Verdict::MustAccept {
+            v = Verdict::Either;
+        }
+        if c.ver == 5 && m.bloom_full && !b_filter_has_a {
+            ctx.violation("C33:advertised-bloom-missing-id", "B uses A but B's advertised Bloom filter does not contain A's server id", &trace);
+        }
+        st.tally(v, got);
+        obs.push(if got { 'U' } else { 'u' });
+        verdict_check(
+            ctx,
+            v,
+            got,
+            &format!("daemon A ({addr_a}, local ids {own_a:02x?}) polls B which synchronises to A and advertises stratum {} refid {:02x?} (poll {k}, v{})", m.stratum, m.refid, c.ver),
+            &trace,
+        );
+    }
+    let _ = mine_b;
+    obs
+}
+
+fn part_d(ctx: &Ctx, st: &St) {
+    let mut cases = Vec::new();
+    for ver in [4u8, 5] {
+        for s_up in [0u8, 1, 2, 5, 13] {
+            for fam in 0..2 {
+                for ipl in 0..2 {
+                    cases.push(DCase { ver, s_up, fam, ipl });
+                }
+            }
+        }
+    }
+    ctx.set("d_cases", cases.len() as u64);
+    let n = cases.len() as u64;
+    common::par_for_with(
+        n,
+        1,
+        || tokio::runtime::Builder::new_current_thread().enable_time().start_paused(true).build().expect("runtime"),
+        |rt, i| {
+            let c = &cases[i as usize];
+            let o = rt.block_on(async { run_d(ctx, st, c) });
+            ctx.distinct(common::hash_of(&("D", c.trace())));
+            if i % 9 == 0 {
+                ctx.sample(format!("{} -> {}", c.trace(), o));
+            }
+        },
+    );
+}
+
+// ---------------------------------------------------------------------------------
+
+fn preliminary(ctx: &Ctx) {
+    // the crate's reference-id derivation against the RFC 5905 definition
+    for ip in [IpAddr::V4(OWN4), IpAddr::V4(OTHER4), IpAddr::V4(SECOND4), IpAddr::V6(own6()), IpAddr::V6(other6()), "2001:db8:85a3::8a2e:370:7334".parse().unwrap()] {
+        ctx.inc("evaluations_refid");
+        let got = ReferenceId::from_ip(ip).to_bytes();
+        if got != ref_id_of(ip) {
+            ctx.violation("C33:refid-from-ip", format!("ReferenceId::from_ip({ip}) = {got:02x?}, RFC 5905 says {:02x?}", ref_id_of(ip)), format!("R;{ip}"));
+        }
+    }
+}
+
+fn replay(ctx: &Ctx, trace: &str) -> String {
+    let st = St::default();
+    let p: Vec<&str> = trace.split(';').collect();
+    let num = |i: usize| -> usize { p.get(i).and_then(|s| s.parse().ok()).unwrap_or(0) };
+    match p[0] {
+        "A" => {
+            let blooms: Vec<_> = (0..BLOOM_KINDS).map(bloom_kind).collect();
+            let c = ACase { stratum: num(1) as u8, local: num(2) as u8, reach: num(3) as u8, src: num(4), refk: num(5), ipl: num(6), bloom: num(7) };
+            run_a(ctx, &st, c, &blooms)
+        }
+        "B" => {
+            let alpha = alphabet();
+            let w: Vec<usize> = p.get(2).map(|s| s.split(',').filter_map(|x| x.parse().ok()).collect()).unwrap_or_default();
+            run_b(ctx, &st, num(1) as u8, &w, &alpha)
+        }
+        "E" => match ECase::parse(&p) {
+            Some(c) => super::block_on_paused(async { run_e(ctx, &st, &c) }),
+            None => "bad trace".to_string(),
+        },
+        "D" => {
+            let c = DCase { ver: num(1) as u8, s_up: num(2) as u8, fam: num(3), ipl: num(4) };
+            super::block_on_paused(async { run_d(ctx, &st, &c) })
+        }
+        "R" => {
+            preliminary(ctx);
+            "refid".to_string()
+        }
+        _ => "unknown trace".to_string(),
+    }
+}
+
+#[test]
+fn check() {
+    let ctx = Ctx::new("C33");
+    if let Some(t) = common::replay_trace() {
+        let a = replay(&ctx, &t);
+        let b = replay(&ctx, &t);
+        common::report_replay("C33", &a, &b, ctx.violation_count() > 0);
+        return;
+    }
+    ctx.rule(
+        "A: accept_synchronization over stratum {0..17,254,255} x local stratum {0,1,2,3,15,16,17,255} x reach (9 values quick / all 256) x source id {own v4, own v6 hash, foreign v4, foreign v6 hash} x \
+         reference id {the same 4, XNON, second local v4} x local address list {v4, v6, v4+v6, 3 addresses, empty} x Bloom {none, empty, {us}, {other}, {us,other}, near miss, all ones}. \
+         B: from_used_sources over every sequence of <=3 sources from 39 symbols x local stratum {1,2,16}. \
+         E: real NtpManager + NtpSource polled against a real Server: version {v4, v5, v4->v5 upgrade} x local stratum x polled address {own v4, own v6, foreign} x address list x first phase {none, good, loop} x \
+         advertised stratum 0..17 x reference id (6) / Bloom (4) x answer patterns (3 quick / all 2^10 + 3 thorough), checked after every poll. \
+         D: two full daemons (B synchronises to A, A polls B) x version x upstream stratum {PPS,1,2,5,13} x address family x address list. \
+         Distinct & non-trivial = a distinct E/D scenario or B word; A cases are counted per deciding condition.",
+    );
+    ctx.assume("reference ids follow RFC 5905 (IPv4 address / first 4 octets of MD5 of the IPv6 address; digests precomputed with python hashlib)");
+    ctx.assume("a source is unreachable when none of its last 8 polls got a valid time answer (RFC 5905 reach register); a valid time answer has stratum 1..=16");
+    ctx.assume("own address at stratum 1, stratum 0 with a local reference id, and a partially transferred Bloom filter are accepted either way");
+    let st = St::default();
+    preliminary(&ctx);
+    // the canonical minimal case first (so it is among the kept traces): a stratum-2 source, reachable,
+    // foreign address, whose reference id is this daemon's only (IPv4) address
+    {
+        let blooms: Vec<_> = (0..BLOOM_KINDS).map(bloom_kind).collect();
+        let c = ACase { stratum: 2, local: 16, reach: 1, src: 2, refk: 0, ipl: 0, bloom: 0 };
+        ctx.sample(format!("{} -> {}", c.trace(), run_a(&ctx, &st, c, &blooms)));
+    }
+    let t0 = ctx.elapsed_s();
+    part_d(&ctx, &st);
+    let t_d = ctx.elapsed_s();
+    part_a(&ctx, &st);
+    let t_a = ctx.elapsed_s();
+    part_b(&ctx, &st);
+    let t_b = ctx.elapsed_s();
+    part_e(&ctx, &st);
+    ctx.note("timing", &format!("D {:.1}s, A {:.1}s, B {:.1}s, E {:.1}s", t_d - t0, t_a - t_d, t_b - t_a, ctx.elapsed_s() - t_b));
+    ctx.set("evaluations", st.evals.load(Ordering::Relaxed));
+    ctx.set("transitions", st.polls.load(Ordering::Relaxed));
+    ctx.set("states", st.steps.load(Ordering::Relaxed));
+    ctx.set("outcome_usable", st.accepted.load(Ordering::Relaxed));
+    ctx.set("outcome_not_usable", st.rejected.load(Ordering::Relaxed));
+    ctx.set("oracle_must_reject_stratum", st.must_reject_stratum.load(Ordering::Relaxed));
+    ctx.set("oracle_must_reject_unreachable", st.must_reject_unreachable.load(Ordering::Relaxed));
+    ctx.set("oracle_must_reject_bloom_loop", st.must_reject_bloom.load(Ordering::Relaxed));
+    ctx.set("oracle_must_reject_refid_loop", st.must_reject_refid.load(Ordering::Relaxed));
+    ctx.set("oracle_must_reject_self", st.must_reject_self.load(Ordering::Relaxed));
+    ctx.set("oracle_must_accept", st.must_accept.load(Ordering::Relaxed));
+    ctx.set("oracle_either", st.either.load(Ordering::Relaxed));
+    ctx.set("e2e_resets", st.resets.load(Ordering::Relaxed));
+    ctx.set("advertisements_checked", st.snapshots.load(Ordering::Relaxed));
+    ctx.set("e2e_steps_with_complete_bloom_transfer", st.bloom_transfers.load(Ordering::Relaxed));
+    ctx.exhaustive(true);
+    ctx.finish();
+}
